@@ -32,6 +32,22 @@ pub enum Node {
     Number(Complex<f64>),
 }
 
+/// tanh(x + iy) = (h (1 + t^2) + i t (1 - h^2)) / (1 + h^2 t^2) with h = tanh(x), t = tan(y), 1 - h^2 = 1 / cosh(x)^2.
+/// num_complex's sinh(2x) / (cosh(2x) + cos(2y)) is inf / inf = NaN for |x| > 354 and 0 / 0 next to the poles.
+fn tanh(z: Complex<f64>) -> Complex<f64> {
+    let h = z.re.tanh();
+    let t = z.im.tan();
+    let sech2 = 1.0 / (z.re.cosh() * z.re.cosh());
+    let d = 1.0 + h * h * t * t;
+    Complex::new(h * (1.0 + t * t) / d, t * sech2 / d)
+}
+
+/// tan(z) = -i tanh(iz)
+fn tan(z: Complex<f64>) -> Complex<f64> {
+    let w = tanh(Complex::new(-z.im, z.re));
+    Complex::new(w.im, -w.re)
+}
+
 pub fn eval(expr: Node) -> Result<Complex<f64>, Box<dyn error::Error>> {
     #[cfg(feature = "verif_hooks")]
     crate::verif_hooks::tick(crate::verif_hooks::Point::EvalEntry);
@@ -48,10 +64,10 @@ pub fn eval(expr: Node) -> Result<Complex<f64>, Box<dyn error::Error>> {
         Abs(sub_expr) => Ok(Complex::new(eval(*sub_expr)?.norm(), 0.0)),
         Sin(sub_expr) => Ok(eval(*sub_expr)?.sin()),
         Cos(sub_expr) => Ok(eval(*sub_expr)?.cos()),
-        Tan(sub_expr) => Ok(eval(*sub_expr)?.tan()),
+        Tan(sub_expr) => Ok(tan(eval(*sub_expr)?)),
         Sinh(sub_expr) => Ok(eval(*sub_expr)?.sinh()),
         Cosh(sub_expr) => Ok(eval(*sub_expr)?.cosh()),
-        Tanh(sub_expr) => Ok(eval(*sub_expr)?.tanh()),
+        Tanh(sub_expr) => Ok(tanh(eval(*sub_expr)?)),
         Asin(sub_expr) => Ok(eval(*sub_expr)?.asin()),
         Acos(sub_expr) => Ok(eval(*sub_expr)?.acos()),
         Atan(sub_expr) => Ok(eval(*sub_expr)?.atan()),
